@@ -19,7 +19,10 @@ KINDS = {
     "tls13": ("tls", {"version": tls.TLS13, "suite": 0x1301, "history": [("c", 20), ("s", 30)]}),
     "tls10": ("tls", {"version": tls.TLS10, "suite": 0x002F, "client_group": "coalesced", "history": [("c", 20), ("s", 30), ("s", 7)]}),
     "quic_gcm": ("quic", {"suite": 0x1301, "coalesce": "ini+hs", "script": [("c", [(0, 25)]), ("s", [(0, 35)]), ("c", [(4, 5)])]}),
-    "quic_chacha": ("quic", {"suite": 0x1303, "coalesce": "ini+hs", "script": [("c", [(0, 25)]), ("s", [(0, 35)]), ("c", [(4, 5)])]}),
+    "quic_chacha": ("quic", {"suite": 0x1303, "coalesce": "ini+hs", "pn_len": 1, "script": [("c", [(0, 25)]), ("s", [(0, 35)]), ("c", [(4, 5)])]}),
+    "ssl3_rc4": ("tls", {"version": tls.SSL30, "suite": 0x0005, "client_group": "coalesced", "history": [("c", 20), ("s", 30), ("s", 7), ("c", 3)]}),
+    "quic_bigpn": ("quic", {"suite": 0x1302, "coalesce": "ini+hs", "pn_len": 3, "pn_start": 70000,
+                            "script": [("c", [(0, 25)]), ("s", [(0, 35)]), ("c", [(4, 5)])]}),
     "quic_split": ("quic", {"suite": 0x1301, "coalesce": "ini+hs", "ch_split": {"cuts": (100,), "order": (1, 0), "packets": True},
                             "script": [("c", [(0, 25)]), ("s", [(0, 35)])]}),
 }
@@ -30,7 +33,7 @@ CID_RELATIONS = ["distinct", "both_clients_zero", "server_cid_prefix", "client_c
 def describe(tier):
     q = tier == "quick"
     return {
-        "rule": "all unordered pairs (incl. same kind) of {TLS1.2, TLS1.3, TLS1.0-CBC, QUIC-GCM, QUIC-ChaCha, QUIC with the ClientHello split over two reordered Initials} x 5 endpoint "
+        "rule": "all unordered pairs (incl. same kind) of {TLS1.2, TLS1.3, TLS1.0-CBC, QUIC-GCM, QUIC-ChaCha, QUIC with the ClientHello split over two reordered Initials, SSL3-RC4, QUIC with large packet numbers} x 5 endpoint "
                 "relations (x 5 CID relations for QUIC pairs); every order-preserving merge with <= "
                 + ("3 context switches" if q else "5 context switches, and ALL merges for the pairs of the two shortest flows") +
                 "; triples and one 4-set with unrelated traffic (DNS-like UDP, HTTP on 80, ARP) with <= "
@@ -107,7 +110,9 @@ def cases(tier, seed):
             for rel in RELATIONS:
                 if "quic_split" in (ka, kb) and rel not in ("different_hosts", "same_hosts_diff_cport"):
                     continue
-                cidrels = CID_RELATIONS if (both_quic and "quic_split" not in (ka, kb) and rel in ("different_hosts", "same_hosts_diff_cport")) else ["distinct"]
+                if ("ssl3_rc4" in (ka, kb) or "quic_bigpn" in (ka, kb)) and rel != "different_hosts":
+                    continue
+                cidrels = CID_RELATIONS if (both_quic and "quic_split" not in (ka, kb) and "quic_bigpn" not in (ka, kb) and rel in ("different_hosts", "same_hosts_diff_cport")) else ["distinct"]
                 for cr in cidrels:
                     yield {"set": "pair", "a": ka, "b": kb, "rel": rel, "cid": cr, "switches": 3 if q else 5, "seed": seed,
                            "all": (not q) and rel == "different_hosts" and cr == "distinct"}
